@@ -213,8 +213,26 @@ func c07OidRule(c *Ctx) {
 							return true
 						}
 					}
-					s, isC := ConstString(v)
-					return isC && s == "sha256"
+					if s, isC := ConstString(v); isC && s == "sha256" {
+						return true
+					}
+					// the tag handed in by every caller of this private function
+					if prm, isP := v.(*ssa.Parameter); isP {
+						args := p.callerArgs(prm)
+						for _, a := range args {
+							if u, ok := a.(*ssa.UnOp); ok {
+								if g, ok := u.X.(*ssa.Global); ok && g.Name() == "oidType" {
+									continue
+								}
+							}
+							if s, isC := ConstString(a); isC && s == "sha256" {
+								continue
+							}
+							return false
+						}
+						return len(args) > 0
+					}
+					return false
 				}
 				if isTag(x) || isTag(y) {
 					return op == token.EQL, true
